@@ -143,7 +143,7 @@ CJK_LEXICON = {
                         '两': 2, '兩': 2, '壹': 1, '贰': 2, '貳': 2, '叁': 3, '肆': 4, '伍': 5, '陆': 6, '陸': 6, '柒': 7,
                         '捌': 8, '玖': 9},
               'unit': {'十': 10, '百': 100, '千': 1000, '万': 10 ** 4, '亿': 10 ** 8, '拾': 10, '佰': 100, '仟': 1000,
-                       '萬': 10 ** 4, '億': 10 ** 8}},
+                       '萬': 10 ** 4, '億': 10 ** 8, '兆': 10 ** 12}},
     'ja-jp': {'digit': {'零': 0, '〇': 0, '一': 1, '二': 2, '三': 3, '四': 4, '五': 5, '六': 6, '七': 7, '八': 8, '九': 9},
               'unit': {'十': 10, '百': 100, '千': 1000, '万': 10 ** 4, '億': 10 ** 8, '兆': 10 ** 12}},
 }
@@ -529,3 +529,318 @@ def thorough(chk):
         if over:
             chk.observe('%s: %d atomic spellings accepted by *IntegerRegex atoms have no table value (over-generation, not armed): %s'
                         % (nr.reg.culture, len(over), ', '.join(sorted(over)[:12])))
+
+
+# ---------------------------------------------------------------------------------------------------------------
+# Table well-formedness (C04.suffix / C04.unitmap / C04.twins / C04.ranges / C04.stems) and the zero guard
+# (C04.zero-guard), added after two seeded changes were not reported.
+
+SUFFIX_REFERENCE = {'k': 10 ** 3, 'm': 10 ** 6, 'g': 10 ** 9, 'b': 10 ** 9, 't': 10 ** 12}
+CJK_TWINS = [('万', '萬'), ('亿', '億'), ('十', '拾'), ('百', '佰'), ('千', '仟'), ('一', '壹'), ('二', '贰'), ('二', '貳'), ('二', '两'),
+             ('二', '兩'), ('三', '叁'), ('四', '肆'), ('五', '伍'), ('六', '陆'), ('六', '陸'), ('七', '柒'), ('八', '捌'), ('九', '玖'),
+             ('零', '〇')]
+RANGES = {'ZeroToNineIntegerRegex': set(range(0, 10)), 'TenToNineteenIntegerRegex': set(range(10, 20)),
+          'TwoToNineIntegerRegex': set(range(2, 10)), 'TensNumberIntegerRegex': None}
+TENS = set(range(20, 100, 10))
+
+
+def _regular_ordinals(code, w):
+    """regular ordinal spellings built on the cardinal spelling w (morphology of the language, not of the repository)"""
+    if code == 'en-us':
+        out = [w + 'th', w + 'ths']
+        if w.endswith('y'):
+            out += [w[:-1] + 'ieth', w[:-1] + 'ieths']
+        if w.endswith('t'):
+            out += [w + 'h', w + 'hs']
+        return out
+    if code == 'de-de':
+        return [w + x for x in ('te', 'ter', 'tes', 'ten', 'tem', 'tel', 'ste', 'ster', 'stes', 'sten', 'stem', 'stel')]
+    if code == 'nl-nl':
+        return [w + x for x in ('de', 'den', 'ste', 'sten')]
+    return []
+
+
+def rule_tables(chk):
+    chk.rule('C04.suffix', 'digit-multiplier suffixes k/m/g/b/t of the round-number map have their value', floor=30, control=True)
+    chk.rule('C04.unitmap', 'CJK UnitMap rewrites of unit compounds preserve the product (万亿 -> 兆 ...)', floor=6, control=True)
+    chk.rule('C04.twins', 'CJK simplified / traditional / financial twin characters have one value', floor=15, control=True)
+    chk.rule('C04.ranges', 'the units / teens / tens atom patterns denote exactly 0-9 / 10-19 / the tens', floor=20, control=True)
+    chk.rule('C04.stems', 'a regular ordinal spelling has the value of its cardinal stem (en, de, nl)', floor=100, control=True)
+    ev = Ev()
+    idx = ev.idx
+    regs = number_registrations(ev)
+    seen = set()
+    for nr in regs:
+        if nr.reg.model_cls.name != 'NumberModel' or nr.config_cls.qual in seen:
+            continue
+        seen.add(nr.config_cls.qual)
+        code, cfg = nr.reg.culture, nr.config_cls
+
+        def val(name, kind):
+            sl = slot(ev, cfg, name)
+            if sl.value is None and sl.origin.startswith('unresolved'):
+                raise AnalysisError('%s:%d %s.%s wiring not evaluable (%s)' % (sl.cls.mod.rel, sl.line, cfg.name, name, sl.origin))
+            if sl.value is not None and not isinstance(sl.value, kind):
+                raise AnalysisError('%s: %s.%s evaluates to %s' % (sl.cls.mod.rel, cfg.name, name, type(sl.value).__name__))
+            return sl
+        rnd = val('round_number_map', dict)
+        rc, _n = dict_node_of(ev, rnd.cls.mod, rnd.expr)
+        if rc is None:
+            raise AnalysisError('%s: resource class behind %s not found' % (code, rnd.origin))
+        res_path = rc.mod.path
+        chk.consulted(res_path)
+        vals = ev.R.values(rc)
+        # ---- suffixes
+        for k_, v_ in sorted(SUFFIX_REFERENCE.items()):
+            if k_ in (rnd.value or {}):
+                got = rnd.value[k_]
+                chk.judge(got == v_, 'C04.suffix', res_path, '%s[%r]' % (rnd.origin, k_), '%s: %r -> %r, reference %d' % (code, k_, got, v_),
+                          '%s: the multiplier suffix %r stands for %d but %s maps it to %r' % (code, k_, v_, rnd.origin, got), rnd.line)
+        if code in CJK_LEXICON:
+            digits, units = val('zero_to_nine_map', dict), val('round_number_map_char', dict)
+            trato = val('trato_sim_map', dict).value or {}
+            umap = val('unit_map', dict)
+            both = dict(digits.value)
+            both.update(units.value)
+
+            def v_of(ch):
+                return both.get(trato.get(ch, ch))
+            # ---- UnitMap: compound of two unit characters rewritten to one unit character
+            for k_, t_ in (umap.value or {}).items():
+                if isinstance(k_, str) and isinstance(t_, str) and len(k_) == 2 and len(t_) == 1 and all(c in units.value for c in k_ + t_):
+                    prod = units.value[k_[0]] * units.value[k_[1]]
+                    chk.judge(prod == units.value[t_], 'C04.unitmap', res_path, '%s[%r]' % (umap.origin, k_),
+                              '%s: %s x %s = %d; %r = %r' % (code, k_[0], k_[1], prod, t_, units.value[t_]),
+                              '%s: %s rewrites %r (%d x %d = %d) to %r, which %s values %d' % (
+                                  code, umap.origin, k_, units.value[k_[0]], units.value[k_[1]], prod, t_, units.origin, units.value[t_]),
+                              umap.line)
+            # ---- twins
+            for a, b in CJK_TWINS:
+                va, vb = v_of(a), v_of(b)
+                if va is None or vb is None:
+                    continue
+                chk.judge(va == vb, 'C04.twins', res_path, '%s: %s / %s' % (code, a, b), '%r = %r; %r = %r' % (a, va, b, vb),
+                          '%s: the twin characters %s and %s denote the same number but are valued %r and %r' % (code, a, b, va, vb), digits.line)
+            # ---- digit class
+            pat = vals.get('ZeroToNineIntegerRegex')
+            if isinstance(pat, str):
+                try:
+                    chars = rx.enumerate_language(rx.parse(pat), limit=500)
+                except rx.RxError as e:
+                    raise AnalysisError('%s: ZeroToNineIntegerRegex not enumerable: %s' % (code, e))
+                got = {}
+                for c in chars:
+                    x = v_of(c)
+                    if x is None:
+                        chk.bad('C04.ranges', res_path, '%s: ZeroToNineIntegerRegex %r' % (code, c), 'no value',
+                                '%s: the digit class accepts %r but the parser has no value for it' % (code, c), digits.line)
+                    else:
+                        got.setdefault(x, []).append(c)
+                chk.judge(set(got) == set(range(10)), 'C04.ranges', res_path, '%s: ZeroToNineIntegerRegex' % code, 'values %s' % sorted(got),
+                          '%s: the digit class denotes %s instead of exactly 0-9 (%s)' % (
+                              code, sorted(got), '; '.join('%s=%s' % (''.join(cs), x) for x, cs in sorted(got.items()) if x not in range(10))
+                              or 'missing %s' % sorted(set(range(10)) - set(got))), digits.line)
+            continue
+        # ---- non-CJK: atom ranges
+        card = val('cardinal_number_map', dict)
+        ordi = val('ordinal_number_map', dict)
+        for name, expected in RANGES.items():
+            pat = vals.get(name)
+            if not isinstance(pat, str):
+                continue
+            try:
+                words = rx.enumerate_language(rx.parse(pat), limit=5000, universe=' -')
+            except rx.RxError as e:
+                raise AnalysisError('%s: %s.%s not enumerable: %s' % (code, rc.name, name, e))
+            got = {}
+            for w in words:
+                x = card.value.get(w.lower())
+                if x is not None:
+                    got.setdefault(x, []).append(w.lower())
+            if expected is not None:
+                good = set(got) == expected
+                want = '%d-%d' % (min(expected), max(expected))
+            else:
+                low = {x for x in got if x < 100}
+                good = low <= TENS and (TENS - {20}) <= low and all(round_value_ok(x) for x in got if x >= 100)
+                want = 'the tens 20..90'
+            wrong = {x: ws for x, ws in got.items() if (expected is not None and x not in expected)
+                     or (expected is None and ((x < 100 and x not in TENS) or (x >= 100 and not round_value_ok(x))))}
+            chk.judge(good, 'C04.ranges', res_path, '%s.%s' % (rc.name, name), '%s: values %s' % (code, sorted(got)),
+                      '%s: the words of %s denote %s instead of %s%s' % (
+                          code, name, sorted(got), want,
+                          ''.join('; %s is valued %s by %s' % ('/'.join(sorted(ws)), x, card.origin) for x, ws in sorted(wrong.items()))),
+                      card.line)
+        # ---- stems
+        if _regular_ordinals(code, 'x'):
+            for w, v_ in sorted(card.value.items(), key=lambda kv: str(kv[0])):
+                if not isinstance(w, str) or (w in (rnd.value or {}) and rnd.value[w] != v_):
+                    continue        # conflicting cardinal / round entries are C04.consistent's business
+                for f in _regular_ordinals(code, w):
+                    if f in ordi.value:
+                        chk.judge(ordi.value[f] == v_, 'C04.stems', res_path, '%s[%r]' % (ordi.origin, f),
+                                  '%s: %r = %r; stem %r = %r' % (code, f, ordi.value[f], w, v_),
+                                  '%s: the ordinal %r is valued %r but its cardinal stem %r is %r' % (code, f, ordi.value[f], w, v_), ordi.line)
+    chk.control('C04.suffix', {'t': 10 ** 9}['t'] != SUFFIX_REFERENCE['t'])
+    chk.control('C04.unitmap', 10 ** 4 * 10 ** 8 != 10 ** 6)
+    chk.control('C04.twins', {'万': 10 ** 4, '萬': 10 ** 3}['万'] != {'万': 10 ** 4, '萬': 10 ** 3}['萬'])
+    words = rx.enumerate_language(rx.parse('(?:thirteen|eleven|twelve|ten)'), limit=100)
+    chk.control('C04.ranges', {{'thirteen': 30, 'eleven': 11, 'twelve': 12, 'ten': 10}[w] for w in words} != {10, 11, 12, 13})
+    chk.control('C04.stems', 'twelfth' not in _regular_ordinals('en-us', 'twelve') and 'thirteenth' in _regular_ordinals('en-us', 'thirteen')
+                and {'thirteenth': 12}['thirteenth'] != 13)
+
+
+# ---- C04.zero-guard ------------------------------------------------------------------------------------------
+
+ZERO_GUARD_MODULES = ('recognizers_number.number.parsers', 'recognizers_number.number.cjk_parsers', 'recognizers_number.number.models')
+
+
+def _is_value_helper(call):
+    f = call.func
+    name = f.attr if isinstance(f, ast.Attribute) else (f.id if isinstance(f, ast.Name) else '')
+    name = name.lstrip('_')
+    return name.endswith('_value') or name.endswith('composite_number') or name in ('Decimal', 'int', 'float')
+
+
+def numeric_locals(fn):
+    """locals every assignment of which is numeric: a number literal, arithmetic, <x>.value, a *_value helper call,
+    a lookup in a *_map table"""
+    cand = {}
+
+    def numeric(e, names):
+        if isinstance(e, ast.Constant):
+            return isinstance(e.value, (int, float)) and not isinstance(e.value, bool)
+        if isinstance(e, ast.Attribute):
+            return e.attr == 'value'
+        if isinstance(e, ast.Name):
+            return e.id in names
+        if isinstance(e, ast.BinOp):
+            return numeric(e.left, names) and numeric(e.right, names)
+        if isinstance(e, ast.UnaryOp) and isinstance(e.op, (ast.USub, ast.UAdd)):
+            return numeric(e.operand, names)
+        if isinstance(e, ast.Call):
+            if _is_value_helper(e):
+                return True
+            if isinstance(e.func, ast.Attribute) and e.func.attr == 'get' and (dotted(e.func.value) or '').endswith('_map'):
+                return True
+            return False
+        if isinstance(e, ast.Subscript):
+            return (dotted(e.value) or '').endswith('_map')
+        if isinstance(e, ast.IfExp):
+            return numeric(e.body, names) and numeric(e.orelse, names)
+        return False
+    assigns = {}
+    for n in ast.walk(fn):
+        if isinstance(n, ast.Assign):
+            for t in n.targets:
+                if isinstance(t, ast.Name):
+                    assigns.setdefault(t.id, []).append(n.value)
+        elif isinstance(n, ast.AnnAssign) and isinstance(n.target, ast.Name) and n.value is not None:
+            assigns.setdefault(n.target.id, []).append(n.value)
+        elif isinstance(n, ast.AugAssign) and isinstance(n.target, ast.Name):
+            assigns.setdefault(n.target.id, []).append(n.value)
+        elif isinstance(n, (ast.For, ast.comprehension)):
+            for t in ast.walk(n.target):
+                if isinstance(t, ast.Name):
+                    assigns.setdefault(t.id, []).append(None)
+    names = set(assigns)
+    changed = True
+    while changed:
+        changed = False
+        for nm in list(names):
+            if not all(v is not None and numeric(v, names) for v in assigns[nm]):
+                names.discard(nm)
+                changed = True
+    # keep only locals fed by a value source (not plain counters / constants)
+
+    def sourced(e, src):
+        for n in ast.walk(e):
+            if isinstance(n, ast.Attribute) and n.attr == 'value':
+                return True
+            if isinstance(n, ast.Call) and (_is_value_helper(n) and not (isinstance(n.func, ast.Name) and n.func.id in ('int', 'float'))):
+                return True
+            if isinstance(n, ast.Call) and isinstance(n.func, ast.Attribute) and n.func.attr == 'get' \
+                    and (dotted(n.func.value) or '').endswith('_map'):
+                return True
+            if isinstance(n, ast.Subscript) and (dotted(n.value) or '').endswith('_map'):
+                return True
+            if isinstance(n, ast.Name) and n.id in src:
+                return True
+        return False
+    src = set()
+    changed = True
+    while changed:
+        changed = False
+        for nm in names - src:
+            if any(sourced(v, src) for v in assigns[nm]):
+                src.add(nm)
+                changed = True
+    return src
+
+
+def value_guards(fn):
+    """(node, kind, text) for every boolean-context leaf over a parsed numeric value; kind: 'truthiness' | 'explicit'"""
+    nums = numeric_locals(fn)
+
+    def is_val(e):
+        return (isinstance(e, ast.Attribute) and e.attr == 'value') or (isinstance(e, ast.Name) and e.id in nums)
+
+    def leaves(t):
+        if isinstance(t, ast.BoolOp):
+            for v in t.values:
+                yield from leaves(v)
+        elif isinstance(t, ast.UnaryOp) and isinstance(t.op, ast.Not):
+            yield from leaves(t.operand)
+        else:
+            yield t
+    tests = []
+    for n in ast.walk(fn):
+        if isinstance(n, (ast.If, ast.While, ast.IfExp)):
+            tests.append(n.test)
+        elif isinstance(n, ast.comprehension):
+            tests.extend(n.ifs)
+        elif isinstance(n, ast.Assert):
+            tests.append(n.test)
+        elif isinstance(n, ast.Call) and isinstance(n.func, ast.Name) and n.func.id == 'filter' and n.args \
+                and isinstance(n.args[0], ast.Lambda):
+            tests.append(n.args[0].body)
+    out = []
+    for t in tests:
+        for leaf in leaves(t):
+            if is_val(leaf):
+                out.append((leaf, 'truthiness', ast.unparse(leaf)))
+            elif isinstance(leaf, ast.Compare) and (is_val(leaf.left) or any(is_val(c) for c in leaf.comparators)):
+                out.append((leaf, 'explicit', ast.unparse(leaf)))
+    return out
+
+
+def rule_zero_guard(chk):
+    from ..index import get_index
+    idx = get_index()
+    chk.rule('C04.zero-guard', 'a parsed numeric value is never tested by truthiness (0 is a value): guards compare explicitly',
+             floor=5, control=True)
+    mods = [m for name, m in sorted(idx.mods.items())
+            if name in ZERO_GUARD_MODULES or (name.startswith('recognizers_number.number.') and name.endswith('.parsers'))]
+    if len(mods) < 5:
+        raise AnalysisError('number parser modules not found (%d)' % len(mods))
+    for m in mods:
+        chk.consulted(m.path)
+        for _m, cls, fn in idx.functions(m):
+            q = '%s.%s' % (cls.name, fn.name) if cls else fn.name
+            for node, kind, text in value_guards(fn):
+                chk.judge(kind == 'explicit', 'C04.zero-guard', m.path, q, text,
+                          '%s tests the parsed number `%s` by truthiness: the value 0 ("zero", "0", 零) is treated as missing; compare with '
+                          '`is not None` (or an explicit number) instead' % (q, text), node.lineno)
+    ctl = ast.parse("def parse(self, s):\n    ret = self._digit_number_parse(s)\n    v = ret.value\n    if ret and ret.value:\n        pass\n"
+                    "    elif not v:\n        pass\n    if ret is not None and not (ret.value is None):\n        pass\n").body[0]
+    g = value_guards(ctl)
+    chk.control('C04.zero-guard', sorted(k for _n, k, _t in g) == ['explicit', 'truthiness', 'truthiness'])
+
+
+_run_before_tables = run
+
+
+def run(chk):       # noqa: F811
+    _run_before_tables(chk)
+    rule_tables(chk)
+    rule_zero_guard(chk)
